@@ -21,7 +21,7 @@ def sortHeads (h : Heads) : Heads := h.mergeSort leHead
 
 /-- a branch name that stays inside `refs/heads` (repaired `AddBranch`/`RenameBranch`) -/
 def validName (n : Bytes) : Bool :=
-  n ≠ [] && !List.elem (47 : UInt8) n && !List.elem (92 : UInt8) n && !List.elem (0 : UInt8) n && n ≠ asc "." && n ≠ asc ".."
+  n ≠ [] && !List.elem (47 : UInt8) n && !List.elem (92 : UInt8) n && !List.elem (0 : UInt8) n && !List.elem (10 : UInt8) n && !List.elem (13 : UInt8) n && n ≠ asc "." && n ≠ asc ".."
 
 /-- `NewRefs`: one file per branch, each must hold a hash; sorted by name -/
 def load (files : List (Bytes × Bytes)) : Option Heads :=
